@@ -72,4 +72,8 @@ def logShort (stream : Bool) (layer : Nat) : Interceptor :=
 def logAlter (stream : Bool) (layer : Nat) : Interceptor :=
   fun cc c inv => let (es, r) := inv { c with opts := c.opts + 1 }; (.int stream layer cc c :: es, r)
 
+/-- log, then forward without any call option (e.g. an interceptor that strips credentials) -/
+def logDrop (stream : Bool) (layer : Nat) : Interceptor :=
+  fun cc c inv => let (es, r) := inv { c with opts := 0 }; (.int stream layer cc c :: es, r)
+
 end InterceptClient
